@@ -12,11 +12,16 @@ Definition nonzero (l : list (host * Z)) : list (host * Z) := filter (fun '(_, t
     panicked?, emerge file after, maintenance file after) *)
 Definition with_morder (env : mgr_env) (o : list host) : mgr_env :=
   {| me_uuid_of := me_uuid_of env; me_repair_order := o; me_offline_order := o; me_zone := me_zone env |}.
-Definition mgr_case := (config * mgr_env * list (list host) * mgr_mem * list tentry * Z * list (N * bool) * mgr_next * list (host * Z) * bool * bool * bool)%type.
+(* which state handler ran: 0 stateManager, 1 stateCandidate, 2 stateMaintenance *)
+Definition handler (tag : Z) (cfg : config) (env : mgr_env) (mem : mgr_mem) : prog (gate_res * mgr_mem) :=
+  if tag =? 0 then manager_gates cfg env mem
+  else if tag =? 1 then (r <- state_candidate mem ;; Ret (GNext (fst r), snd r))
+  else (r <- state_maintenance cfg env mem ;; Ret (GNext (fst r), snd r)).
+Definition mgr_case := (Z * config * mgr_env * list (list host) * mgr_mem * list tentry * Z * list (N * bool) * mgr_next * list (host * Z) * bool * bool * bool)%type.
 Definition ok_mgr (c : mgr_case) : bool :=
-  let '(cfg, env0, orders, mem, tr, t0, files, next, fa, panicked, emerge, maint) := c in
+  let '(tag, cfg, env0, orders, mem, tr, t0, files, next, fa, panicked, emerge, maint) := c in
   existsb (fun o => let env := with_morder env0 o in
-  match replay (manager_gates cfg env mem) (init_rstate tr t0 files) with
+  match replay (handler tag cfg env mem) (init_rstate tr t0 files) with
   | RDone (GNext n, m') rs =>
       negb panicked && next_eqb n next && drained rs && hostz_eqb (nonzero (am_failed_at (mm_an m'))) fa &&
       Bool.eqb (file_get f_emerge (r_files rs)) emerge && Bool.eqb (file_get f_maintenance (r_files rs)) maint
@@ -30,8 +35,8 @@ Definition ok_mgr (c : mgr_case) : bool :=
 Definition mismatches_mgr := mismatches ok_mgr.
 
 Definition mgr_exit (c : mgr_case) : Z :=
-  let '(cfg, env, orders, mem, tr, t0, files, next, fa, panicked, emerge, maint) := c in
-  match replay (manager_gates cfg env mem) (init_rstate tr t0 files) with
+  let '(tag, cfg, env, orders, mem, tr, t0, files, next, fa, panicked, emerge, maint) := c in
+  match replay (handler tag cfg env mem) (init_rstate tr t0 files) with
   | RDone (GNext _, _) rs => match r_sites rs with s :: _ => s | [] => 0 end
   | RDone (GTail _, _) _ => 1
   | RPanic s _ => - s
